@@ -253,28 +253,20 @@ func GetOnlyExplainErr(errMsg string) string {
 	}
 	buf := newStrBuf(1 << 8)
 	defer putStrBuf(buf)
-	zhLen := len(ExplainZh)
-	enLen := len(ExplainEn)
-	endLen := len(ErrEndFlag)
-	splitLen := zhLen
-	nullLen := 1 // err msg [说明: xxx] 里包含一个空需要处理
-	for {
-		s := strings.Index(errMsg, ExplainZh)
-		e := strings.Index(errMsg, ErrEndFlag) // 未发现的话, 为最后一句错误
-		if s == -1 || (e != -1 && s > e) {     // 说明为英文
-			s = strings.Index(errMsg, ExplainEn)
-			splitLen = enLen
+	// 每句错误分别处理: 先找中文说明, 没有再找英文说明, 都没有的(如: 规则不存在)跳过
+	for _, clause := range strings.Split(errMsg, ErrEndFlag) {
+		var explain string
+		if s := strings.Index(clause, ExplainZh); s != -1 {
+			explain = clause[s+len(ExplainZh):]
+		} else if s = strings.Index(clause, ExplainEn); s != -1 {
+			explain = clause[s+len(ExplainEn):]
+		} else {
+			continue
 		}
-		if s == -1 { // 异常
-			break
+		if buf.Len() > 0 {
+			buf.WriteString(ErrEndFlag)
 		}
-		if e == -1 {
-			buf.WriteString(errMsg[s+splitLen+nullLen:])
-			break
-		}
-		buf.WriteString(errMsg[s+splitLen+nullLen : e])
-		buf.WriteString(ErrEndFlag)
-		errMsg = errMsg[e+endLen:]
+		buf.WriteString(strings.TrimPrefix(explain, " ")) // 说明标识后有一个空格
 	}
 	return buf.String()
 }
